@@ -928,6 +928,9 @@ struct Runner<'a> {
     err_after_commit: u64,
     fault_absorbed_ok: u64,
     reader_interleavings: u64,
+    /// fault positions at which no fault was injected (last step of a BEGIN / COMMIT / autocommit write that
+    /// had taken effect; inside a ROLLBACK)
+    skipped_positions: u64,
     /// which read supplies the second component of a content ("summary" unless a reader group says otherwise)
     sum_kind: String,
 }
@@ -984,6 +987,7 @@ impl Runner<'_> {
         g.flush();
         if g.skipped_ctl {
             g.fired = false;
+            self.skipped_positions += 1;
         }
         if crash {
             g.crash_image("after");
@@ -1318,6 +1322,7 @@ fn main() {
         err_after_commit: 0,
         fault_absorbed_ok: 0,
         reader_interleavings: 0,
+        skipped_positions: 0,
         sum_kind: "summary".to_string(),
     };
     let mut groups = vec![];
@@ -1394,7 +1399,7 @@ fn main() {
         "executions": rn.execs, "faults_fired": rn.faults_fired, "faults_with_pending_rows": rn.faults_with_pending_rows,
         "distinct_nontrivial": rn.nontrivial.len(), "panics": rn.panics, "groups": groups, "samples": rn.samples,
         "crash_images": rn.crash_images, "err_after_commit": rn.err_after_commit, "fault_absorbed_ok": rn.fault_absorbed_ok,
-        "reader_interleavings": rn.reader_interleavings,
+        "reader_interleavings": rn.reader_interleavings, "skipped_positions": rn.skipped_positions,
         "wall_ms": t0.elapsed().as_millis() as u64,
         "times_us": TIMES.with(|m| m.borrow().iter().map(|(k, (n, us))| json!([k, n, *us as u64])).collect::<Vec<_>>()),
     });
